@@ -67,9 +67,9 @@ CHECKS = {
     "C15": dict(cat="proof", tech="Lean 4: round-trip theorem io_roundtrip about the model of SCFGIO.to_dict / from_dict for every hierarchy meeting the decidable hypothesis ioReady (evaluated on every real stage graph) + exact-dump correspondence of that model with the code + verified comparison decider sameHier on real re-read graphs (dict and YAML)",
                 text="Scfg/Model/IO.lean models the writer (work-list over blocks and sub-regions, per-type fields) and the reader (outer-graph discovery, breadth-first make_scfg that stops at the exiting block, recursive region construction, recorded name of the outermost region). Scfg.C15.io_roundtrip proves for EVERY hierarchy satisfying IOReady (unique names, normal-form blocks, region headers inside, only exiting blocks naming anything outside their level, every member reachable from its header): whenever writer and reader answer, the graph read back holds exactly the original blocks - container, type, ordered successors, back edges, payload, value table, variable, assignments, kind, header, exiting, parent - under the same container name (with blk_roundtrip, toDict_sound/complete/keys_nodup, makeScfg_exact for all hierarchies / dictionaries). ioReady_sound ties the Boolean the harness evaluates on every real stage graph to that hypothesis. The model is compared with the real to_dict (entry order included) and from_dict on every stage graph; in addition the real re-read graphs (dict and YAML, chains, pipeline continued on the re-read graph) are judged by sameHier (sameHier_sound).", ref="§0.3 C15",
                 note="Trusted: Lean kernel + standard axioms; exporter and the dictionary encoder in harness/props/c15.py; PyYAML (YAML text is checked per instance, not modelled). The theorem is about the model; it does not show that the reader never aborts (abort sites are part of the compared dump). Dictionaries with keys that do not belong to a block's type, and graphs with PythonASTBlock payloads (known finding), are outside the modelled domain."),
-    "C17": dict(cat="translation_validation", tech="Lean 4: drawing specification specDrawing/drawingOK with soundness theorem, evaluated on the drawing parsed from the real DOT source of every stage output",
-                text="The real SCFGRenderer / ByteFlowRenderer output for every stage of every generated closed CFG (and bytecode graphs) is parsed and judged by Scfg.Spec.drawingOK: nodes, nested clusters and solid/dashed edges with header-resolved destinations must equal, as multisets, what specDrawing prescribes (Scfg.C17.drawingOK_sound, spec_nodes, spec_clusters); labels are checked for each required field.", ref="§7 C17",
-                note="Trusted: Lean kernel + standard axioms; exporter; the graphviz package's DOT printer; harness/dot.py. No Lean model of the renderer's control flow: the quantifier over graphs is by enumeration."),
+    "C17": dict(cat="proof", tech="Lean 4: a-priori theorems about the model of the renderer's control flow (renderNodes_exact, renderEdges_exact, renderEdges_eq_spec, drawn_in_spec) + order-exact correspondence of that model with the drawing parsed from the real DOT source + verified drawing specification (drawingOK_sound) judged on every real drawing",
+                text="Scfg/Model/Render.lean models render_block's dispatch with recursive cluster rendering and render_edges with find_base_header over dict(scfg). Props/C17Render.lean proves for EVERY hierarchy: whenever the model answers, the nodes and clusters drawn are exactly `Drawn` (one node per non-region block in its enclosing cluster, one cluster per region, recursively at any depth; renderNodes_exact), every one of them is a node / cluster of the specification (drawn_in_spec), the edges are exactly one solid edge per jump target and one dashed edge per back edge of every non-region block the iterator yields, drawn to the block find_base_header reaches (renderEdges_exact), and - when the iterator yields every block (C16) and names are unique (C04) - exactly the edges of specDrawing (renderEdges_eq_spec). The model's nodes, clusters and edges are compared, in emission order, with the drawing parsed from the real DOT source of SCFGRenderer / ByteFlowRenderer for every stage of every generated graph; that parsed drawing is also judged by Scfg.Spec.drawingOK (drawingOK_sound, spec_nodes, spec_clusters: nodes, nested clusters and solid/dashed edges with header-resolved destinations equal the specification as multisets); labels are checked field by field per instance.", ref="§0.3 C17",
+                note="Trusted: Lean kernel + standard axioms; exporter; the graphviz package's DOT printer; harness/dot.py. Labels (name, payload summary, variable, table, assignments) are checked per drawing, not modelled. 'Never fails' is by exact comparison of abort sites on the enumerated graphs, not a theorem."),
     "C08": dict(cat="translation_validation", tech="Lean 4: reference semantics of the Python subset by compilation to micro-code (validated path-exhaustively against CPython) + verified simulation checker (pySim_sound) between the function and the real front end's CFG; CPython runs of both; census",
                 text="Scfg/Py/Micro.lean gives the supported subset (incl. and/or, comparison chains, call arguments, for/while/else, break/continue/return) a reference semantics whose abstract values are reaching definitions, so the state space is finite and Scfg.C08.pySim_sound turns one successful certificate check into equal event traces for ALL decision sequences. "
                      "For every generated function the real front end's CFG is abstracted and compared with the function this way; both are also executed natively by CPython (the CFG through a block-by-block interpreter) on every decision sequence up to depth 7, which also validates the Lean semantics; pruning is censused by statement identity. "
